@@ -152,3 +152,62 @@ def family_nodes(prog, f):
     from ..astutil import own_nodes
     for g in family(prog, f):
         yield from own_nodes(g.node)
+
+
+def componentwise_calls(prog, method, ts_method: str):
+    """The calls `<component>.<ts_method>(...)` a SeismicRecording3C method makes, by value: a list of
+    (component attribute, {TimeSeries parameter: value}) in execution order, or None when the method body is not a
+    straight sequence of such calls (loops over the component names are unrolled, helpers are inlined)."""
+    import ast as _ast
+    import sympy as _sp
+    from ..astutil import bind_call
+    from ..pathtable import PathTable
+    ts = prog.cls("TimeSeries").methods[ts_method]
+    calls = []
+
+    def hook(call, T):
+        if isinstance(call.func, _ast.Attribute) and call.func.attr == ts_method:
+            b = bind_call(call, ts.params, skip_first=True)
+            vals = {p: T.tr(v) for p, v in b.items()}
+            recv = T.tr(call.func.value)
+            return _sp.Function("<ts>" + ts_method)(recv, *[vals.get(p, _sp.Function("default")(_sp.Symbol(p))) for p in ts.params[1:]])
+        return None
+    leaves = PathTable(prog, method.module, call_hook=hook, unroll=True, structured=True).leaves(method.node.body)
+    leaves = [l for l in leaves if l.exit != "raise"]
+    if len(leaves) != 1:
+        return None
+    for e in leaves[0].events:
+        v = e[2]
+        if e[0] == "loop":
+            import ast as _a
+            if any(isinstance(x, _a.Attribute) and x.attr == ts_method for x in _a.walk(e[3])):
+                return None        # a loop that was not unrolled hides the calls
+        if e[0] == "call" and getattr(getattr(v, "func", None), "__name__", "") == "<ts>" + ts_method:
+            recv = v.args[0]
+            comp = getattr(recv.func, "__name__", "")[5:] if getattr(getattr(recv, "func", None), "__name__", "").startswith("attr_") and recv.args[0] == _sp.Symbol(method.params[0], real=True) else str(recv)
+            calls.append((comp, dict(zip(ts.params[1:], v.args[1:]))))
+    return calls
+
+
+def check_componentwise(ck, prog, rule: str, name: str, label: str = None):
+    """SeismicRecording3C.<name> applies TimeSeries.<name> to ns, ew and vt, each exactly once, with the caller's arguments."""
+    import sympy as _sp
+    m = prog.cls("SeismicRecording3C").methods[name]
+    calls = componentwise_calls(prog, m, name)
+    if calls is None:
+        raise AnalysisError(f"{m.qualname}: the component-wise calls of {name}() were not recognised")
+    comps = sorted(c for c, _a in calls)
+    problems = []
+    if comps != ["ew", "ns", "vt"]:
+        problems.append(f"{name} is applied to {comps}")
+    for c, args in calls:
+        for p, v in args.items():
+            if p in m.params:
+                if v != _sp.Symbol(p, real=True):
+                    problems.append(f"{c}.{name} receives {p}={v}, not the caller's `{p}`")
+            elif getattr(getattr(v, "func", None), "__name__", "") != "default":
+                problems.append(f"{c}.{name} receives {p}={v}")
+    if not problems:
+        ck.ok(rule, m.qualname, label or f"{name} applied to ns, ew, vt with the caller's arguments")
+    else:
+        ck.violation(rule, m.qualname, f"component-wise {name}", f"{name} is not applied to all three components with the caller's arguments: " + "; ".join(sorted(set(problems))[:3]), loc=m.loc())
